@@ -17,7 +17,9 @@ META = {
         "WinconBytes::extract_next (never the raw input); write_all loops until the run is empty, maps Ok(0) to WriteZero, "
         "retries Interrupted and returns every other error; write propagates the console error with `?`; write_fmt goes through "
         "fmt::Adapter (error kept); the consumed-count rule — no path from a short console write to Ok(buf.len()) — fires on the "
-        "documented HACK and is a recorded finding. Run contents are C07's subject; the real console API is out of scope."),
+        "documented HACK and is a recorded finding. Run contents are C07's subject; the real console API is out of scope."
+        " Linked rules: the VT parser underneath (C02's table / order / action-map / guards / reset / limits / params rules, all but the OSC payload rule) is evaluated in this check too — a run is only right if every complete SGR sequence is dispatched with its parameters."
+        " The palette tables of C13 (Ansi256Color::into_ansi, which cap_wincon_color narrows through) and the extractor rules of C07 are linked the same way."),
 }
 
 MANIFEST = {
@@ -44,9 +46,10 @@ def run(ctx):
     rep.guarded("errors", H, lambda: rule_errors(facts, rep))
     # the colours handed to the console are those of the extracted runs: the extractor's SGR rules are part of this property's
     # chain (same rules as C07, evaluated here as well)
-    from rules import C07
-    rep.guarded("codes", C07.FN + "csi_dispatch", lambda: C07.rule_codes(facts, rep))
-    rep.guarded("substate", C07.FN + "csi_dispatch", lambda: C07.rule_substate(facts, rep))
+    from rules import links
+    links.extractor(facts, rep)
+    links.parser_under_sgr(facts, rep)
+    links.palette_tables(facts, rep)     # cap_wincon_color narrows Ansi256 through Ansi256Color::into_ansi
     for r, n in (("cap-table", 3), ("wiring", 10), ("write_all-loop", 5), ("consumed-count", 1), ("errors", 3), ("W4", 5)):
         rep.floor(r, n)
 
